@@ -685,10 +685,11 @@ func (self *_ValueDecoder) compile() {
 	self.Link("_parsing_error")              // _parsing_error:
 	self.Emit("NEGQ", _AX)                   // NEGQ  AX
 	self.Emit("MOVQ", _AX, _EP)              // MOVQ  AX, EP
-	self.Link("_error")                      // _error:
-	self.Emit("PXOR", _X0, _X0)              // PXOR  X0, X0
-	self.Emit("MOVOU", _X0, jit.Ptr(_VP, 0)) // MOVOU X0, (VP)
-	self.Sjmp("JMP", "_epilogue")            // JMP   _epilogue
+	self.Link("_error")                         // _error:
+	self.Emit("XORL", _AX, _AX)                 // XORL  AX, AX
+	self.WritePtrAX(9, jit.Ptr(_VP, 0), false)  // MOVQ  AX, (VP)
+	self.WritePtrAX(10, jit.Ptr(_VP, 8), false) // MOVQ  AX, 8(VP)
+	self.Sjmp("JMP", "_epilogue")               // JMP   _epilogue
 
 	/* invalid value type, never returns */
 	self.Link("_invalid_vtype")
